@@ -108,7 +108,8 @@ Definition byte_okb (z : Z) : bool := (0 <=? z) && (z <? 256).
 Definition bytes_okb (l : list Z) : bool := forallb byte_okb l.
 Definition lex_ok (L : lex) : Prop :=
   (forall t, text_okb t = true -> txt_dec L (txt_enc L t) = Some t) /\
-  (forall l, bytes_okb l = true -> b64_dec L (b64_enc L l) = Some l).
+  (forall l, bytes_okb l = true -> b64_dec L (b64_enc L l) = Some l) /\
+  (forall l, b64_enc L l = "" -> l = []).
 
 Definition nbyte (n : N) : ascii := ascii_of_N n.
 Definition utf8_enc1 (c : N) : list ascii :=
